@@ -282,3 +282,61 @@ func SortedKeys[V any](m map[string]V) []string {
 	sort.Strings(ks)
 	return ks
 }
+
+// Mutex and RWMutex are the real primitives under a name the instrumenter does
+// not rewrite: harness-internal bookkeeping locks must not become scheduling points.
+type (
+	Mutex   = sync.Mutex
+	RWMutex = sync.RWMutex
+)
+
+// Jobs distributes n independent jobs over worker processes (re-executions of
+// this binary with "--shard w/W"). In a worker it runs the jobs j with
+// j%W==w, prints one "JOB-RESULT j <json>" line per job and exits; in the
+// parent it returns the raw JSON of every job, in job order.
+func Jobs(a Args, n int, run func(job int) any) [][]byte {
+	if a.Of > 1 {
+		for j := a.Shard; j < n; j += a.Of {
+			b, err := json.Marshal(run(j))
+			if err != nil {
+				EngineError("job %d: %v", j, err)
+			}
+			fmt.Printf("JOB-RESULT %d %s\n", j, b)
+		}
+		os.Exit(0)
+	}
+	w := runtime.NumCPU()
+	if w > n {
+		w = n
+	}
+	if v := os.Getenv("VERIF_WORKERS"); v != "" {
+		if k, err := strconv.Atoi(v); err == nil && k > 0 && k < w {
+			w = k
+		}
+	}
+	if w < 2 {
+		w = 2 // always go through a worker process: isolation from crashes and leaks
+	}
+	outs := Shards(w)
+	res := make([][]byte, n)
+	for _, o := range outs {
+		for _, l := range strings.Split(string(o), "\n") {
+			if !strings.HasPrefix(l, "JOB-RESULT ") {
+				continue
+			}
+			rest := l[len("JOB-RESULT "):]
+			sp := strings.IndexByte(rest, ' ')
+			j, err := strconv.Atoi(rest[:sp])
+			if err != nil || j < 0 || j >= n {
+				EngineError("bad job result line: %s", l)
+			}
+			res[j] = []byte(rest[sp+1:])
+		}
+	}
+	for j := range res {
+		if res[j] == nil {
+			EngineError("job %d produced no result", j)
+		}
+	}
+	return res
+}
